@@ -294,7 +294,7 @@ def nontrivial(case, o):
 LEVEL_TEXT = ("Machine-checked proof (Coq 8.16) over an executable model of Backend / BackendList / the back-off "
               "policy / HealthState and the six load-balancing policies: every selection of every history returns an "
               "eligible backend (or the documented fail-open one), backups only without primaries, sticky wins, "
-              "affinity is stable, the Maglev table is total after every rebuild, counters balance; the model is tied "
+              "affinity is stable, the Maglev table is total after every rebuild with a prime size (65537 proved prime), counters balance; the model is tied "
               "to lib/src/{backends,load_balancing,retry}.rs on every run by a predicate/constant translator and a "
               "differential correspondence run of the real BackendMap against the extracted model, with the property's "
               "own oracle evaluated on the implementation.")
